@@ -1,11 +1,14 @@
 import MW.Drv.Amt
+import MW.Drv.Bip39
 open MW
 structure DSt where
   sAmt : Drv.Amt.St := Drv.Amt.init
+  sBip39 : Drv.Bip39.St := Drv.Bip39.init
 
 def dstep (st : DSt) (line : String) : DSt × String :=
   match (line.trimAscii.toString.splitOn " ").filter (· ≠ "") with
   | "amt" :: args => let (s, o) := Drv.Amt.step st.sAmt args; ({ st with sAmt := s }, o)
+  | "bip39" :: args => let (s, o) := Drv.Bip39.step st.sBip39 args; ({ st with sBip39 := s }, o)
   | ["reset"] => ({}, "ok")
   | _ => (st, "bad-engine")
 
